@@ -337,14 +337,15 @@ def finish(rep, level_text_base, trusted_base, assumptions, checker_cmd):
   for v in rep.violations:
     n += 1
     path = os.path.join(VERIF, 'replays', '%s_%s_%d.json' % (rep.prop_id, rep.seed, n))
-    json.dump(dict(property=rep.prop_id, kind='failing-input', **jsonable(v)),
+    json.dump(dict(property=rep.prop_id, kind='failing-input', seed=rep.seed, tier=rep.tier,
+                   **jsonable(v)),
               open(path, 'w'), indent=1)
     viol_lines.append('VIOLATION property=%s replay=%s' % (rep.prop_id, path))
     if n >= 5:
       break
   if not rep.violations and (rep.divergences or rep.broken):
     path = os.path.join(VERIF, 'replays', '%s_%s_unproved.json' % (rep.prop_id, rep.seed))
-    json.dump(dict(property=rep.prop_id, kind='obligation-broken',
+    json.dump(dict(property=rep.prop_id, kind='obligation-broken', seed=rep.seed, tier=rep.tier,
                    broken_theorems_or_build=rep.broken,
                    diverging_correspondence=[jsonable(d) for d in rep.divergences[:20]],
                    note='model/theorem no longer tied to the code; failing-input search '
